@@ -90,4 +90,17 @@ Bilinear(e, g0) ==
     /\ e.op = "pair" /\ e.err = 0 /\ e.code = 0
     /\ InputsAreMultiples(e)
     /\ Gt(e) = Pow12(e, g0, SumAB(e, 1))
+(* the final exponentiation as a function of its own (pp_exp_k12 / pc_exp on arbitrary non-zero elements x, y of  *)
+(* F_p12): the value does not depend on whether the result object is the operand, the map is multiplicative and   *)
+(* its image has order dividing r (and is not trivial on a random element)                                        *)
+F12(e, v) == TUnflat(T12(e), 3, NormAll(v, 1))
+FinalExp(e) ==
+    LET T == T12(e)
+        X == F12(e, e.x)  Y == F12(e, e.y)  XY == F12(e, e.xy)
+        C1 == F12(e, e.c1)  D1 == F12(e, e.d1)  E1x == F12(e, e.e1)
+    IN  /\ e.op = "expo" /\ e.err = 0 /\ e.code = 0 /\ BNorm(e.usq1) = <<>>
+        /\ F12(e, e.c2) = C1 /\ F12(e, e.c3) = C1                  \* in place = out of place; pc_exp = pp_exp_k12
+        /\ TMul(T, 3, X, Y) = XY
+        /\ TMul(T, 3, C1, D1) = E1x                                 \* multiplicative
+        /\ C1 # One12(e) /\ Pow12(e, C1, Ord(e)) = One12(e)        \* image of order dividing r, not trivial
 =============================================================================
